@@ -305,7 +305,9 @@ Theorem chromatic_index_dsatur_ok g :
       (gadj g i j = false -> nth p ce 0%Z = 0%Z) /\
       (gadj g i j = true -> (1 <= nth p ce 0 <= Z.of_nat ci)%Z /\
          forall p' i' j', nth_error (pairs (gn g)) p' = Some (i', j') -> gadj g i' j' = true ->
-           (i, j) <> (i', j') -> share_end (i, j) (i', j') -> nth p ce 0%Z <> nth p' ce 0%Z)).
+           (i, j) <> (i', j') -> share_end (i, j) (i', j') -> nth p ce 0%Z <> nth p' ce 0%Z)) /\
+    (ci <= 255 -> forall c, (1 <= c <= Z.of_nat ci)%Z ->
+       exists p i j, nth_error (pairs (gn g)) p = Some (i, j) /\ gadj g i j = true /\ nth p ce 0%Z = c).
 Proof.
   destruct (rows_graph_line_graph g) as [Hgn Hadj].
   set (h := rows_graph (snd (line_graph_rows g))) in *.
@@ -324,15 +326,28 @@ Proof.
   exists chi, (map (fun x => (x mod 256)%Z) ce). split; auto. split; auto.
   split; [eapply chromatic_index_unique; eauto; apply chromatic_index_ref_spec|].
   split; [rewrite map_length; auto|].
-  intros H255.
-  assert (Hsame : map (fun x => (x mod 256)%Z) ce = ce).
-  { rewrite <- (map_id ce) at 2. apply map_ext_in. intros x Hx.
+  assert (Hsame : chi <= 255 -> map (fun x => (x mod 256)%Z) ce = ce).
+  { intros H255. rewrite <- (map_id ce) at 2. apply map_ext_in. intros x Hx.
     apply In_nth with (d := 0%Z) in Hx. destruct Hx as (p & Hp' & <-).
     rewrite Hlen in Hp'.
     destruct (nth_error (pairs (gn g)) p) as [[i j]|] eqn:Epq; [|apply nth_error_None in Epq; lia].
     destruct (Hce p i j Epq) as [H0 H1]. apply Z.mod_small.
     destruct (gadj g i j); [destruct (H1 eq_refl) as [Hr _]; lia|rewrite H0; auto; lia]. }
-  rewrite Hsame. exact Hce.
+  split; [intros H255; rewrite (Hsame H255); exact Hce|].
+  intros H255 c Hc. rewrite (Hsame H255).
+  destruct He as [_ Hused]. destruct (Hused (c - 1)%Z ltac:(lia)) as (a & Ha & Hca).
+  rewrite Hgn in Ha. simpl in Ha.
+  destruct (nth_error (edges g) a) as [[i j]|] eqn:Ea; [|apply nth_error_None in Ea; lia].
+  assert (Hin : In (i, j) (edges g)) by (eapply nth_error_In; eauto).
+  rewrite edges_as_filter in Hin. apply filter_In in Hin. destruct Hin as [Hinp Hadjp].
+  apply In_nth_error in Hinp. destruct Hinp as (p & Ep).
+  destruct Hk as [[Hlcol _] _]. simpl in Hlcol.
+  destruct (chromatic_index_assemble_correct g col Hlcol) as (ce' & Ece' & _ & Hce').
+  assert (ce' = ce) by congruence. subst ce'.
+  destruct (Hce' p i j Ep) as [_ H1]. destruct (H1 Hadjp) as (a' & Ea' & Hv).
+  assert (a' = a).
+  { apply (proj1 (NoDup_nth_error (edges g)) (edges_NoDup g)); [apply nth_error_Some; congruence|congruence]. }
+  subst a'. exists p, i, j. split; auto. split; [exact Hadjp|]. rewrite Hv, Hca. lia.
 Qed.
 
 (* ------------------------------------------------------------------ relabelling *)
